@@ -218,7 +218,16 @@ func TestVerifC12(t *testing.T) {
 		}
 
 		// identity used in a group of each type: the member key handed out by the secret store
-		for _, ty := range []protocoltypes.GroupType{protocoltypes.GroupType_GroupTypeMultiMember, protocoltypes.GroupType_GroupTypeContact, protocoltypes.GroupType_GroupTypeAccount} {
+		// (the order in which the types are asked for changes from group to group: the answer for one type must
+		// not depend on what the store was asked about the same identifier before)
+		tyOrder := []protocoltypes.GroupType{protocoltypes.GroupType_GroupTypeMultiMember, protocoltypes.GroupType_GroupTypeContact, protocoltypes.GroupType_GroupTypeAccount}
+		switch gi % 3 {
+		case 1:
+			tyOrder = []protocoltypes.GroupType{protocoltypes.GroupType_GroupTypeContact, protocoltypes.GroupType_GroupTypeMultiMember, protocoltypes.GroupType_GroupTypeAccount}
+		case 2:
+			tyOrder = []protocoltypes.GroupType{protocoltypes.GroupType_GroupTypeAccount, protocoltypes.GroupType_GroupTypeContact, protocoltypes.GroupType_GroupTypeMultiMember}
+		}
+		for _, ty := range tyOrder {
 			c := g.Copy()
 			c.GroupType = ty
 			md, err := acc.ss.GetOwnMemberDeviceForGroup(c)
